@@ -42,9 +42,10 @@ theorem C04_treehash_pre (b : Bytes) (blk : Block) (r : Bytes) (h : block b = so
   obtain ⟨hs, r3, h3, h⟩ := bind_some h
   obtain ⟨rfl, rfl⟩ := pure_some h
   have := vec_cap sizes.key key r2 hs r3 h3
-  have hc : CAP = 33554432 := rfl
-  have hk : sizes.key = 32 := rfl
-  simp only [hk, hc] at this
+  -- robust to changes of the cap and of the layout: only `1 ≤ size_of::<Hash>()` and `CAP < 2^28` are used
+  have hk : 1 ≤ sizes.key := by decide
+  have hc : CAP + 1 ≤ 2^28 := by decide
+  have : hs.length ≤ hs.length * sizes.key := Nat.le_mul_of_pos_right _ hk
   show hs.length + 1 ≤ 2^28
   omega
 
@@ -99,8 +100,11 @@ theorem C04_alloc_released_on_error (b : Bytes) (h : (rvecTxIn b).val = none) : 
   bounded_rvecTxIn.live_fail b h
 
 /- non-vacuity: the cap check really fires in the model (a declared length beyond the cap is refused before any element) -/
-example : vec sizes.key key (encVarint (CAP / 32 + 1) ++ List.replicate 64 0) = none := by
-  have : encVarint (CAP / 32 + 1) = [0x81, 0x80, 0x40] := by
-    rw [encVarint, encVarint, encVarint]; decide
-  rw [this]; decide
+example (r : Bytes) : sizedVec sizes.key key (CAP + 1) r = none := by
+  unfold sizedVec
+  have : (CAP + 1) * sizes.key > CAP := by
+    have hk : 1 ≤ sizes.key := by decide
+    have := Nat.le_mul_of_pos_right (CAP + 1) hk
+    omega
+  simp [this, fail]
 end C04
